@@ -25,6 +25,7 @@ type Case struct {
 	Outer   string `json:"outer"`            // implicit (gorm's default transaction) | begin (caller's transaction)
 	Batch   int    `json:"batch,omitempty"`  // batch size of create_batches (CreateInBatches) / create_batchsize (Session{CreateBatchSize}.Create)
 	Graph   string `json:"graph,omitempty"`  // Node graph with shared records (root type Node): chain triangle diamond fan3 two_roots cycle
+	Body    string `json:"body,omitempty"`   // hook body: "" (one Exec through tx) | handle | session | create_update (several statements through one derived handle)
 	Preset  bool   `json:"preset,omitempty"` // graph records carry preset (new) primary keys
 }
 
@@ -51,6 +52,9 @@ func (c Case) String() string {
 	}
 	if c.Graph != "" {
 		s += fmt.Sprintf(" graph=%s preset_ids=%v", c.Graph, c.Preset)
+	}
+	if c.Body != "" {
+		s += " hookbody=" + c.Body
 	}
 	return s
 }
@@ -103,6 +107,8 @@ func fillRoot(c Case, rv reflect.Value, i int) {
 	case "save_existing":
 		set(uint(i+1), fmt.Sprintf("r%d", i), "s")
 		existingKids = true
+	case "save_missing": // primary key set, but there is no such row
+		set(uint(50+i), fmt.Sprintf("r%d", i), "s")
 	case "update", "updates_struct", "updates_map":
 		// all records carry the same name: one UPDATE statement serves all of
 		// them, so a per-record SetColumn value cannot be stored per record
@@ -486,7 +492,7 @@ func (w *worker) run(c Case, x *mc.Exec) *Obs {
 	e.MustExec(resetSQL)
 	o := &Obs{Case: c, DBPool: e.DB.ConnPool}
 	o.Pre = snapshot(e)
-	st := &execState{x: x, env: e, nth: map[string]int{}}
+	st := &execState{x: x, env: e, nth: map[string]int{}, body: c.Body}
 	w.car.cur = st
 	e.Rec.Reset()
 	arg := buildArg(c)
@@ -518,7 +524,7 @@ func (w *worker) run(c Case, x *mc.Exec) *Obs {
 			res = db.CreateInBatches(arg, c.Batch)
 		case "create_batchsize":
 			res = db.Session(&gorm.Session{CreateBatchSize: c.Batch}).Create(arg)
-		case "save_new", "save_existing":
+		case "save_new", "save_existing", "save_missing":
 			res = db.Save(arg)
 		case "update":
 			if c.Mode == "column" {
